@@ -124,6 +124,37 @@ CHECKS += [
            "not examined; bounded parts are enumerations of the real functions with stated bounds"),
 ]
 
+CHECKS += [
+ dict(id='C04',
+      text="Slice: the four static Cython methods of the integrator template (step, do_post_stage, compute_accelerations, "
+           "update_domain; cut from the .mako text and extracted mechanically) satisfy their contracts (orig_t/t/dt "
+           "book-keeping, one_timestep and the callback called exactly once with (orig_t+stage_dt, dt, stage), "
+           "delegation); Integrator.compute_accelerations refreshes pm then nnps strictly before compute iff update_nnps; "
+           "trace contract of one_timestep of all 15 shipped integrators (stages increasing, one do_post_stage(c*dt,k) "
+           "per stage, 0<c<=1, last c=1); write-frame of every stepper method. Bounded: get_timestep_code = body of "
+           "one_timestep (15 classes), stage-wrapper emission of the real template (real=True, py_stage before loop).",
+      note="compyle/Cython/mako external; user-defined integrators only via the same checkers; frames do not follow "
+           "helper calls"),
+ dict(id='C05',
+      text="Slice: write-frame contract for every initialize/initialize_pair/loop/loop_all/post_loop of all 309 shipped "
+           "equations (1827 stores, each proved by z3 to address s*d_idx+r, 0<=r<s, or listed as a known scatter write); "
+           "Solver.reorder_particles re-orders every array then refreshes the NNPS and solve() does so before the initial "
+           "accelerations; every CPU --nnps branch passes cache and sort_gids=options.sort_gids.",
+      note="OpenMP ownership of d_idx assumed; whole-run equality across algorithms/threads, bit-reproducibility and float "
+           "summation order are NOT decided (no contract expresses them); races have no deterministic replay; 18 scatter "
+           "stores in 5 places are open known findings"),
+ dict(id='C16',
+      text="Proof over the reals of the zone-id partition of IOEvaluate.loop (any normal, point, length; tie point separate), "
+           "of 'a recycled inlet particle is inside the zone again' (|n|=1), of the mirror-outlet reflection; trace "
+           "contracts (symbolic index sets) of InletBase.update, hybrid Inlet.update, OutletBase.update incl. inactive "
+           "stages: extract I={ioid==0} to the fluid then shift exactly x/y/z[I] by +-L*n on inlet/ghost; extract "
+           "O={ioid==1} to the outlet THEN remove the same O from the fluid, remove {ioid==2} from the outlet; evaluator "
+           "wiring (zone array maxdist=length, fluid array unbounded, real=False).",
+      note="io_eval.evaluate sets ioid per the IOEvaluate contract (compiled evaluation assumed); ParticleArray "
+           "extract/remove/add contracts are C06's; count conservation follows from them, not re-proved here; mirror "
+           "Outlet.update checked structurally (call order) only"),
+]
+
 NOT_APPLICABLE = [
  dict(property_id='C11', reason="round trip runs through numpy.savez/numpy.load/h5py and the compiled ParticleArray constructor; the repository code in between is dict/bytes glue no contract within reach can express (DESIGN.md section 4)"),
  dict(property_id='C12', reason="finite enumeration of scheme options decided by executing scheme code, generating and running; no function-level contract states it (DESIGN.md section 4)"),
@@ -131,7 +162,7 @@ NOT_APPLICABLE = [
 ]
 # properties not yet under a registered check are listed as not applicable
 # "pending" until their check lands, so the manifest is valid at all times
-PENDING = ['C01','C04','C05','C06','C07','C16','C17']
+PENDING = ['C01','C06','C07','C17']
 for p in PENDING:
     if p not in [c['id'] for c in CHECKS]:
         NOT_APPLICABLE.append(dict(property_id=p, reason="check not registered yet in this commit (work in progress, see DESIGN.md section 3 for the planned contracts)"))
